@@ -48,7 +48,12 @@ CallClause(st) ==
                   \* (whose traceback and notes it would carry along)
                   ELSE IF "reused" \in DOMAIN st.obs THEN (IF HotReload THEN "X5:same_as_rebuilt_after_hot_reload" ELSE IF "C05" \in Props THEN "C05:same_as_rebuilt" ELSE "C04:same_as_fresh") \o ".error_object_of_an_earlier_call"
                   ELSE IF ObsKey(st.obs) # ObsKey(st.fresh)
-                       THEN (IF HotReload THEN "X5:same_as_rebuilt_after_hot_reload" ELSE IF "C05" \in Props THEN "C05:same_as_rebuilt" ELSE "C04:same_as_fresh")
+                       THEN (IF HotReload
+                             \* fresh0 (recorded only where it differs in priorities): the brand-new function with the priorities
+                             \* the code registered - a disagreement it explains is the loss of the priority, nothing else
+                             THEN (IF "fresh0" \in DOMAIN st /\ ObsKey(st.obs) = ObsKey(st.fresh0)
+                                   THEN "X5:hot_reload_keeps_priority" ELSE "X5:same_as_rebuilt_after_hot_reload")
+                             ELSE IF "C05" \in Props THEN "C05:same_as_rebuilt" ELSE "C04:same_as_fresh")
                   ELSE ""
              ELSE ""
       Combos(x) == IF "combos" \in DOMAIN x THEN {x.combos[j] : j \in DOMAIN x.combos} ELSE {}
